@@ -161,7 +161,10 @@ def run(spec):
         if msg:
             known_lines.append(f"KNOWN-FINDING: property={prop} {fid}: {msg[:200]}")
         elif msg is None:
-            print(f"NOTE: property={prop} finding {fid} did not reproduce in its directed run(s) on this tree")
+            # a listed finding is reported on every run; a race-dependent one may not show in this run's directed attempts
+            sigs = [f['signature'] for f in kf if f['id'] == fid and f['signature']]
+            known_lines.append(f"KNOWN-FINDING: property={prop} {fid}: {(sigs[0] if sigs else '')[:160]} (listed; not reproduced by this run's "
+                               f"{sum(1 for (fi, _), _ in frun if fi == fid)} directed attempt(s))")
 
     results = run_e2(hbin, spec['model'], runs, par=spec.get('par', 4), timeout_s=spec.get('timeout_s', 600), listed=is_listed)
     results += spec.get('_unlisted_from_findings', [])
